@@ -611,6 +611,45 @@ def finalizer_scenarios(log):
                 pass
             h.a
             del h
+    note("anytrait-handler-unregisters-during-dispatch")
+    # object-level (anytrait) handlers, no trait-level notifiers on the changed trait; one-shot handlers unregister
+    # themselves / later handlers / all handlers while the notification is being dispatched (call_notifiers must
+    # iterate over its own snapshot of the lists)
+    class AH(HasTraits):
+        plain = Any()
+        other = Any()
+
+    for pattern in ("self", "later", "all", "earlier-and-later"):
+        for _ in range(10):
+            h = AH()
+            hs = []
+
+            def make(i):
+                def handler():
+                    if pattern == "self" and i == 0:
+                        h.on_trait_change(hs[0], remove=True)
+                    elif pattern == "later" and i == 0:
+                        h.on_trait_change(hs[2], remove=True)
+                        h.on_trait_change(hs[3], remove=True)
+                    elif pattern == "all" and i == 1:
+                        for x in list(hs):
+                            try:
+                                h.on_trait_change(x, remove=True)
+                            except Exception:
+                                pass
+                    elif pattern == "earlier-and-later" and i == 1:
+                        h.on_trait_change(hs[0], remove=True)
+                        h.on_trait_change(hs[3], remove=True)
+                    gc.collect()
+                return handler
+            for i in range(4):
+                hs.append(make(i))
+                h.on_trait_change(hs[i])          # no name: object-level notifier
+            h.plain = CollectOnDel()
+            h.other = 5
+            h.plain = None
+            del hs[:]
+            del h
     note("heap-check")
     junk = [FHolder(payload=i) for i in range(2000)]
     del junk
